@@ -413,9 +413,7 @@ theorem Ext.nodeFinally {P : Program} {t : Nat} {s : St} (d : DagRef) (n : Node)
   have e2 := Ext.notifyAll (t := t) ((P.g.desc1 n).map Key.node) (e1.runnable_t hrt)
   have h2 := (e1.trans e2)
   have e3 := Ext.notify (t := t) .run (e2.runnable_t (e1.runnable_t hrt))
-  split
-  · exact (h2.trans e3).trans (Ext.notify _ (e3.runnable_t (e2.runnable_t (e1.runnable_t hrt))))
-  · exact h2.trans e3
+  exact (h2.trans e3).trans (Ext.notify _ (e3.runnable_t (e2.runnable_t (e1.runnable_t hrt))))
 
 /-- an update of the storage only -/
 theorem Ext.of_data {t : Nat} {s s' : St} (ht : s'.tasks = s.tasks)
@@ -668,11 +666,8 @@ theorem evSet_nodeFinally (P : Program) (s : St) (d : DagRef) (n : Node) :
     (nodeFinally P s d n true).evSet = upd s.evSet n true := by
   unfold Eng.nodeFinally
   simp only [Bool.not_true, Bool.false_eq_true, if_false]
-  split
-  · show (notifyAll (setEvent s n) _).evSet = _
-    rw [evSet_notifyAll]; rfl
-  · show (notifyAll (setEvent s n) _).evSet = _
-    rw [evSet_notifyAll]; rfl
+  show (notifyAll (setEvent s n) _).evSet = _
+  rw [evSet_notifyAll]; rfl
 
 /-- a task other than the caller exists: the task list is longer than one -/
 theorem len_ne_one {P : Program} {depth : Node → Nat} {s : St} (hs : Struct P depth s) {t : Nat} {tkt : Task}
@@ -1146,6 +1141,12 @@ theorem struct_node_done {P : Program} {depth : Node → Nat} (hp : LiveP P dept
     (r : TaskRes) (hr : (∃ x, r = .exc x) ∨ (r = .ok ∧ ((s0.res q).isSome = true ∨ s.evSet q = true))) :
     Struct P depth ((nodeFinally P s0 d q true).setTask t { tkt with frames := [], st := .done r, mustCancel := false }) := by
   have hd := hs.data
+  have hF_evSet : ∀ tk', (St.setTask (nodeFinally P s0 d q true) t tk').evSet = (nodeFinally P s0 d q true).evSet := fun _ => rfl
+  have hF_proc : ∀ tk', (St.setTask (nodeFinally P s0 d q true) t tk').proc = (nodeFinally P s0 d q true).proc := fun _ => rfl
+  have hF_procHid : ∀ tk', (St.setTask (nodeFinally P s0 d q true) t tk').procHid = (nodeFinally P s0 d q true).procHid := fun _ => rfl
+  have hF_res : ∀ tk', (St.setTask (nodeFinally P s0 d q true) t tk').res = (nodeFinally P s0 d q true).res := fun _ => rfl
+  have hF_resHid : ∀ tk', (St.setTask (nodeFinally P s0 d q true) t tk').resHid = (nodeFinally P s0 d q true).resHid := fun _ => rfl
+  have hF_sw : ∀ tk', (St.setTask (nodeFinally P s0 d q true) t tk').sw = (nodeFinally P s0 d q true).sw := fun _ => rfl
   have hnc : tkt.name ≠ .caller := by rw [hnm]; intro h; cases h
   have hrt0 : ∀ tk0, s0.tasks[t]? = some tk0 → ∃ rv, tk0.st = .runnable rv := by
     intro tk0 h; rw [htasks, htkt] at h; cases h; exact hrt
@@ -1186,14 +1187,14 @@ theorem struct_node_done {P : Program} {depth : Node → Nat} (hp : LiveP P dept
       (St.setTask (nodeFinally P s0 d q true) t { tkt with frames := [], st := .done r, mustCancel := false }).procHid n = false := by
     intro n
     constructor
-    · rw [show (St.setTask _ t _).resHid = (nodeFinally P s0 d q true).resHid from rfl, f2, hrh]
+    · rw [hF_resHid _, f2, hrh]
       exact (hd.noHid n).1
-    · rw [show (St.setTask _ t _).procHid = (nodeFinally P s0 d q true).procHid from rfl, f4]
+    · rw [hF_procHid _, f4]
       exact hph n
   refine Struct.close hs ⟨tkt, htkt, rfl⟩ e (len_ne_one hs htkt hnc) ?_ ?_ ?_ ?_ ?_ ?_ ?_ ?_
   · refine ⟨hnoHid, ?_, ?_, ?_, ?_, ?_, ?_, ?_, ?_, ?_, ?_⟩
     · intro n v h
-      rw [show (St.setTask _ t _).res = (nodeFinally P s0 d q true).res from rfl, f1] at h
+      rw [hF_res _, f1] at h
       by_cases hnq : n = q
       · subst hnq
         rcases hresq with h' | ⟨w, h', hw, _, _⟩
@@ -1201,8 +1202,8 @@ theorem struct_node_done {P : Program} {depth : Node → Nat} (hp : LiveP P dept
         · rw [h'] at h; cases h; exact hw
       · exact hd.noRec n v (by rw [← hresn n hnq]; exact h)
     · intro n hn
-      rw [show (St.setTask _ t _).proc = (nodeFinally P s0 d q true).proc from rfl, f3] at hn
-      rw [show (St.setTask _ t _).evSet = (nodeFinally P s0 d q true).evSet from rfl]
+      rw [hF_proc _, f3] at hn
+      rw [hF_evSet _]
       rcases hprocs n hn with rfl | h
       · exact Or.inl ((hevq n).mpr (Or.inl rfl))
       · rcases hd.c1 n h with h' | h'
@@ -1214,8 +1215,8 @@ theorem struct_node_done {P : Program} {depth : Node → Nat} (hp : LiveP P dept
             rw [hf0] at hf'; simp only [List.cons.injEq, Frame.node.injEq, and_true] at hf'
             exact hnq hf'.2.1.symm
     · intro n hn
-      rw [show (St.setTask _ t _).evSet = (nodeFinally P s0 d q true).evSet from rfl] at hn
-      rw [show (St.setTask _ t _).res = (nodeFinally P s0 d q true).res from rfl, f1]
+      rw [hF_evSet _] at hn
+      rw [hF_res _, f1]
       have old : s.evSet n = true → (s0.res n).isSome = true ∨ taskErrors (St.setTask (nodeFinally P s0 d q true) t
           { tkt with frames := [], st := .done r, mustCancel := false }) ≠ [] := by
         intro h
@@ -1232,16 +1233,16 @@ theorem struct_node_done {P : Program} {depth : Node → Nat} (hp : LiveP P dept
         · exact old h'
       · exact old h
     · intro n hn
-      rw [show (St.setTask _ t _).res = (nodeFinally P s0 d q true).res from rfl, f1] at hn
-      rw [show (St.setTask _ t _).evSet = (nodeFinally P s0 d q true).evSet from rfl]
+      rw [hF_res _, f1] at hn
+      rw [hF_evSet _]
       by_cases hnq : n = q
       · exact (hevq n).mpr (Or.inl hnq)
       · exact (hevq n).mpr (Or.inr (hd.c5 n (by rw [← hresn n hnq]; exact hn)))
     · intro S l c h
-      rw [show (St.setTask _ t _).sw = (nodeFinally P s0 d q true).sw from rfl, f6, hsw] at h
+      rw [hF_sw _, f6, hsw] at h
       exact hd.swEdge S l c h
     · intro S lc h
-      rw [show (St.setTask _ t _).sw = (nodeFinally P s0 d q true).sw from rfl, f6, hsw] at h
+      rw [hF_sw _, f6, hsw] at h
       have h1 := hd.swSel S lc h
       have h2 : switchSelect P s0 S = some lc := by
         rcases hresq with h' | ⟨w, _, _, h', _⟩
@@ -1252,17 +1253,18 @@ theorem struct_node_done {P : Program} {depth : Node → Nat} (hp : LiveP P dept
             · exact hresn n hnq
           rw [switchSelect_congr this hrh]; exact h1
         · exact switchSelect_stable hrh h' hresn h1
-      rw [show switchSelect P (St.setTask _ t _) S = switchSelect P (nodeFinally P s0 d q true) S from rfl,
-        switchSelect_congr f1 f2]
+      have hFs : ∀ tk', switchSelect P (St.setTask (nodeFinally P s0 d q true) t tk') S =
+          switchSelect P (nodeFinally P s0 d q true) S := fun _ => rfl
+      rw [hFs, switchSelect_congr f1 f2]
       exact h2
     · intro n hn
-      rw [show (St.setTask _ t _).res = (nodeFinally P s0 d q true).res from rfl, f1] at hn
-      rw [show (St.setTask _ t _).proc = (nodeFinally P s0 d q true).proc from rfl, f3]
+      rw [hF_res _, f1] at hn
+      rw [hF_proc _, f3]
       by_cases hnq : n = q
       · rw [hnq]; exact hpq
       · exact hprocm n (hd.c6 n (by rw [← hresn n hnq]; exact hn))
     · intro n hn
-      rw [show (St.setTask _ t _).proc = (nodeFinally P s0 d q true).proc from rfl, f3] at hn
+      rw [hF_proc _, f3] at hn
       rcases hprocs n hn with rfl | h
       · exact hns
       · exact hd.procPlain n h
